@@ -37,6 +37,10 @@ class Declined(Exception):
         self.msg = msg
 
 
+class FunctionMissing(LookupError):
+    """the function under contract is not in /repo any more"""
+
+
 class Infeasible(Exception):
     """path condition became unsatisfiable"""
 
@@ -782,7 +786,7 @@ def locate(path, qualname, ordinal=0):
 
     walk(tree.body, [], None)
     if len(found) <= ordinal:
-        raise LookupError("function %s#%d not found in %s (found %d)" % (qualname, ordinal, path, len(found)))
+        raise FunctionMissing("function %s#%d not found in %s (found %d)" % (qualname, ordinal, path, len(found)))
     node, cls = found[ordinal]
     seg = ast.get_source_segment(src, node)
     return Located(path, qualname, node, seg, cls)
@@ -1378,6 +1382,12 @@ class Interp:
         obj = self.eval(e.value, sc)
         idx = self.eval_index(e.slice, sc)
         return self.subscript(obj, idx)
+
+    def e_Yield(self, e, sc):
+        h = self.hooks.get("yield")
+        if h is None:
+            raise Unsupported("yield without a generator model")
+        return h(None if e.value is None else self.eval(e.value, sc))
 
     def e_Starred(self, e, sc):
         raise Unsupported("starred expression outside call/display")
